@@ -95,15 +95,26 @@ func (s *Scanner) Scan(ctx context.Context, r *scan.Request) (result scan.Result
 	// TODO DNS names
 	host := fmt.Sprintf("tcp://%s:%d", r.DstIP.String(), r.DstPort)
 
+	// moby.WithHost reconfigures the transport of the client it is given:
+	// it installs the proxy settings of the environment (HTTP_PROXY, HTTPS_PROXY,
+	// ALL_PROXY) and a dialer of its own. A probe must go to the scanned host
+	// itself and probes run concurrently, so every probe works on its own copy
+	// of the transport, from which the settings of the environment are removed
+	client := *s.client
+	tr := s.client.Transport.(*http.Transport).Clone()
+	client.Transport = tr
+
 	var docker *moby.Client
 	if docker, err = moby.NewClientWithOpts(
 		moby.WithAPIVersionNegotiation(),
-		moby.WithHTTPClient(s.client),
+		moby.WithHTTPClient(&client),
 		moby.WithScheme(s.proto),
 		moby.WithHost(host),
 	); err != nil {
 		return
 	}
+	tr.Proxy = nil
+	tr.Dial = nil
 
 	var info types.Info
 	if info, err = docker.Info(ctx); err != nil {
